@@ -175,6 +175,16 @@ def write_to(doc, fmt, dest, scratch):
     return ("bytes", open(p, "rb").read())
 
 
+class _ReadOnly(object):
+    """a source that is a stream only in that it can be read"""
+
+    def __init__(self, inner):
+        self._inner = inner
+
+    def read(self, *a):
+        return self._inner.read(*a)
+
+
 def offer(written, src, scratch):
     """(kwargs for deserialize, source for read or None, stream or None)"""
     kind, data = written
@@ -422,6 +432,49 @@ def one_document(ctx, doc, fmts, scratch, fails, model_ops, pending, doc_id):
                             fails.append(Failure("oracle", None, "the same unchanged file, read a second time (%s) after the document from the first "
                                                  "reading had been given one more entity, no longer gives the written document (%s)" % (mode, lab2),
                                                  dict(case, reread=True)))
+        # ---- streams that are file-like without being io classes (a tempfile wrapper, an object with just read()): outside
+        #      the model, which knows the 5 source kinds above; what counts as a stream is "it can be read"
+        for dest in ("ret", "bin"):
+            kind, data = written[dest]
+            as_text = data if kind == "text" else data.decode("utf-8")
+            as_bytes = data.encode("utf-8") if kind == "text" else data
+            for duck in ("tempfile", "read_only_text", "read_only_bytes"):
+                for mode in (("read_auto", "read_fmt") if duck == "tempfile" else ("read_auto",)):
+                    tf = None
+                    try:
+                        if duck == "tempfile":
+                            import tempfile
+                            tf = tempfile.NamedTemporaryFile(dir=scratch)
+                            tf.write(as_bytes)
+                            tf.flush()
+                            tf.seek(0)
+                            srcobj = tf
+                        elif duck == "read_only_text":
+                            srcobj = _ReadOnly(io.StringIO(as_text))
+                        else:
+                            srcobj = _ReadOnly(io.BytesIO(as_bytes))
+                        with warnings.catch_warnings():
+                            warnings.simplefilter("ignore")
+                            import logging
+                            logging.disable(logging.CRITICAL)
+                            try:
+                                got = prov.read(srcobj, format=fmt) if mode == "read_fmt" else prov.read(srcobj)
+                            finally:
+                                logging.disable(logging.NOTSET)
+                        lab = digest(got)
+                    except Exception as e:  # noqa
+                        lab, got = None, e
+                    finally:
+                        if tf is not None:
+                            tf.close()
+                    ctx.evaluations += 1
+                    ctx.count("file-like:%s:%s" % (duck, mode))
+                    if lab != ref_label:
+                        what = ("raised %r" % (got,)) if lab is None else ("a different document (%d records)" % (
+                            len(got.get_records()) + sum(len(b.get_records()) for b in got.bundles)))
+                        fails.append(Failure("oracle", None, "prov.read(%s) of a file-like source (%s) holding what destination kind %s received gave %s" % (
+                            "format=%r" % fmt if mode == "read_fmt" else "no format", duck, dest, what),
+                            {"fmt": fmt, "dest": dest, "src": duck, "mode": mode, "doc": doc_id, "filelike": True}))
         op = {"op": "io_case", "fmt": fmt, "text": written["ret"][1], "tables": tables,
               "cases": [{"dest": d_} for d_ in DESTS] + [c[0] for c in cells]}
         if fmt == "xml":
